@@ -3,6 +3,7 @@
 
 pub mod arena;
 pub mod bnf;
+pub mod conf;
 pub mod earley;
 pub mod families;
 pub mod interp;
